@@ -258,6 +258,8 @@ def main(tier, seed):
     eng = engine.Engine(PROP, tier, seed, "model_checking")
     engine.selftest(eng)
     plans = [dict(max_cmds=2, max_edits=1)] if tier == "quick" else [dict(max_cmds=3, max_edits=1), dict(max_cmds=2, max_edits=2, rich=True)]
+    # the same with the root folder spelled with a trailing separator (tab completion) and as '.' from inside
+    plans += [dict(max_cmds=2, max_edits=0 if tier == "quick" else 1, spell=sp) for sp in ("slash", "dot")]
     tot = {"states": 0, "transitions": 0}
     runs = []
     for pl in plans:
